@@ -1003,6 +1003,20 @@ def check_C16(ctx, rep):
         w = F.words_from_hex(tab[2]); c0 = oracle.f64_of(w[0])
         return "sin" if abs(c0 + 1.0 / 6) < 1e-6 else ("cos" if abs(c0 - 1.0 / 24) < 1e-6 else None)
     role = {classify_kernel(tb): tb for tb in tabs}
+    if set(role) != {"sin", "cos"} and role_from_terms is None:
+        # the tables are there but not in ascending order of the powers (a table stored highest order first and read front to
+        # back): read the coefficients from the evaluated kernels, in the order the Horner chain uses them
+        try:
+            t_cos0, _ = fx.tree("TwoFloat::cos")
+            ks_ = kernel_from_term(first_kernel_leaf(t_sin), "odd")
+            kc_ = kernel_from_term(first_kernel_leaf(t_cos0), "cos")
+        except vg.Unsupported:
+            ks_ = kc_ = None
+        if ks_ and kc_:
+            role_from_terms = {"sin": synth_table(ks_), "cos": synth_table(kc_)}
+            tabs = [role_from_terms["sin"], role_from_terms["cos"]]
+            fx.tree("TwoFloat::sin")
+            role = {classify_kernel(tb): tb for tb in tabs}
     if set(role) != {"sin", "cos"}:
         rep.fail("R41", "sin kernels", "anchor-lost:sin-kernel-roles", "sine/cosine kernel tables not recognised by their leading coefficients -1/6 and 1/24 (reason=anchor-lost)"); return
     S = lambda r: k_sin(r, role["sin"]); C = lambda r: k_cos(r, role["cos"])
